@@ -153,7 +153,13 @@ BiRec(k) == [fam |-> "bi", x |-> k.x, y |-> k.y, w |-> k.w, nilw |-> k.nilw, res
 
 (******************************* family "mat" *******************************)
 \* data matrix with columns x, y, z (z_i = x_i * y_i): every entry of CovarianceMatrix /
-\* CorrelationMatrix is the pairwise scalar quantity of the two columns
+\* CorrelationMatrix is the pairwise scalar quantity of the two columns.
+\* The data matrix is an ABSTRACT matrix (cols[j][i] = element (i, j)): gonum receives it through
+\* the mat.Matrix interface, and EVERY Go representation of it - a compact Dense, a window of a
+\* larger matrix (stride > columns, offsets), the transpose x.T() of a matrix holding the transposed
+\* data, a user type with only Dims / At / T - must give the values printed here, into every kind
+\* of destination (empty, pre-sized, a window of a larger symmetric matrix).  The replay runs each
+\* case in all of them (property C04's statement, applied to package stat; harness reps.go).
 MatCols(k) == <<k.x, k.y, [i \in Idx(k.x) |-> k.x[i] * k.y[i]]>>
 MatRec(k) ==
     LET cols == MatCols(k) w == k.w W == WSum(w) IN
